@@ -58,12 +58,14 @@ static void bulk_finish(hz::Ctx &ctx) { for (int c = 0; c < 12; c++) bulk_flush(
 
 // a line that chunk fitting has to pad is encoded twice by the library (once at the unpadded position, once behind
 // the padding): the instruction behind the NOPs must still be the one written
-static void run_fitted(hz::Ctx &ctx, const LineCase &c, bool nested = false) {
+void run_fitted_line(hz::Ctx &ctx, const ln::LineCase &c, bool nested);
+static void run_fitted(hz::Ctx &ctx, const LineCase &c, bool nested = false) { run_fitted_line(ctx, c, nested); }
+void run_fitted_line(hz::Ctx &ctx, const ln::LineCase &c, bool nested) {
   if (!nested && !ctx.take()) return;   // nested: called from inside a case this worker already owns (all workers must see the same take() sequence)
   std::string id = "F|" + serialize(c); if (!ctx.begin(id, text(c.it))) return;
   auto plain = al::assemble(text(c.it), c.combo); if (plain.rc != 0 || plain.bytes.empty()) return;
   size_t L = plain.bytes.size(); if (L < 2) return;
-  int chunk = L < 8 ? 8 : 16; int start = chunk - 1;   // one byte left in the chunk: every instruction of 2+ bytes must be padded
+  int chunk = L < 8 ? 8 : L < 16 ? 16 : 32; int left = 1 + (int)((hz::fnv(id) >> 11) % (L - 1)); int start = chunk - left;   // 1..L-1 bytes left in the chunk: the instruction must be padded
   std::vector<uint8_t> buf(128, 0xcc); assemblyline_t a = asm_create_instance(buf.data(), 128); al::apply_opts(a, combo_opts(c.combo)); asm_set_chunk_size(a, chunk); asm_set_offset(a, start);
   int rc = asm_assemble_str(a, text(c.it).c_str()); int off = asm_get_offset(a); asm_destroy_instance(a);
   ctx.cls("part:re-encoded-by-fitting"); ctx.nontrivial(id);
@@ -91,6 +93,9 @@ static void run_context(hz::Ctx &ctx, const LineCase &c, bool nested = false) {
     ctx.cls("part:in-front-of-non-code-text");
     if (r2.rc != alone.rc || (alone.rc == 0 && (r2.bytes.size() != alone.bytes.size() + extra || memcmp(r2.bytes.data(), alone.bytes.data(), alone.bytes.size())))) {
       hz::Failure f = make_failure(c, "context-dependent", "followed by " + hz::jesc(AFTER[k]) + " the line gives rc " + std::to_string(r2.rc) + " and " + x86::hex(r2.bytes.data(), r2.bytes.size()) + " ; alone rc " + std::to_string(alone.rc) + " and " + x86::hex(alone.bytes.data(), alone.bytes.size())); f.caseid = id; f.tags.push_back("group:context"); ctx.fail(f); return; } }
+  // the whole line in capitals (every mnemonic, register and keyword folds)
+  { std::string up = text(c.it); for (auto &ch : up) ch = (char)toupper((unsigned char)ch); auto r3 = al::assemble(up, c.combo); ctx.cls("part:in-capitals");
+    if (r3.rc != alone.rc || r3.bytes != alone.bytes) { hz::Failure f = make_failure(c, "case-dependent", "\"" + up + "\" gives rc " + std::to_string(r3.rc) + " and " + x86::hex(r3.bytes.data(), r3.bytes.size()) + " ; in lower case rc " + std::to_string(alone.rc) + " and " + x86::hex(alone.bytes.data(), alone.bytes.size())); f.caseid = id; f.tags.push_back("group:context"); ctx.fail(f); return; } }
   auto first = al::assemble(cl, c.combo);
   auto both = al::assemble(std::string(cl) + "\n" + text(c.it) + "\n", c.combo);
   ctx.cls("part:after-context-line"); ctx.nontrivial(id);
@@ -374,11 +379,21 @@ static RelVerdict check_rel(const LineCase &c) {
 void prop_c05(hz::Ctx &ctx) {
   hz::Rng rng(ctx.seed ^ 0xc05);
   auto rels = rel_values(rng, ctx.thorough() ? 100000 : 12000);
+  // far outside 32 bits (also values whose low 8 / 32 bits look like a small displacement): a rel8-only form must still reject them
+  std::vector<int64_t> huge; for (int64_t b : {(int64_t)1 << 32, (int64_t)1 << 33, (int64_t)1 << 40, (int64_t)1 << 62, ((int64_t)1 << 31)}) for (int64_t d : {-129LL, -128LL, -123LL, -1LL, 0LL, 1LL, 5LL, 127LL, 128LL}) { if (!(b == ((int64_t)1 << 32) && d >= -128 && d <= -1)) huge.push_back(b + d); /* 0xffffff80..0xffffffff is this library's 32-bit spelling of -128..-1 */ huge.push_back(-b + d); }
   auto refs = form_refs([](const Form &f) { return std::string(f.pat) == "REL"; });
   for (auto &r : refs) {
     for (int kw = 0; kw < 3; kw++) {
       if (kw == 1 && !has_rel8(r.mn)) continue;   // "short" only where a rel8 form exists
       if (kw == 2 && !has_rel32(r.mn)) continue;  // "long" only where a rel32 form exists
+      if (kw == 1 || !has_rel32(r.mn)) for (int64_t d : huge) for (int hex = 0; hex < 2; hex++) {
+        LineCase c; c.it = base_intent(r); c.it.brkw = kw; c.it.ops.push_back(wrel(d, hex == 1, 0)); c.combo = (int)((hz::fnv(r.mn) + (uint64_t)d) % 12);
+        if (!ctx.take()) continue; std::string id = serialize(c); if (!ctx.begin(id, text(c.it))) continue;
+        ctx.cls("d:beyond-32-bits"); ctx.nontrivial(id);
+        al::Result res = al::assemble(text(c.it), c.combo);
+        if (res.rc == 0) ctx.fail(make_failure(c, "wrapped", "rel8-only/short with a displacement far outside -128..127 was accepted: " + x86::hex(res.bytes.data(), res.bytes.size())));
+        else if (res.wrote_on_failure) ctx.fail(make_failure(c, "wrote-on-reject", "buffer modified by a rejected line"));
+      }
       for (int64_t d : rels) for (int hex = 0; hex < 4; hex++) {
         // spellings: decimal, hex, and both with leading zeros (for the small and boundary displacements and a quarter of the rest)
         int pad = 0; if (hex >= 2) { if (!((d >= -129 && d <= 128) || ((uint64_t)d * 2654435761ULL >> 7) % 4 == 0)) continue; pad = ndigits((uint64_t)(d < 0 ? -d : d), hex == 3) + 1 + (int)(((uint64_t)d >> 1) % 3); if (hex == 3 && ((uint64_t)d >> 3) % 3 == 0) pad = 15 + (int)(((uint64_t)d >> 5) % 4); /* 15..18 hex digits */ }
@@ -429,7 +444,7 @@ int replay_line(const std::string &prop, const std::string &caseid) {
   }
   if (caseid.compare(0, 2, "F|") == 0) {
     LineCase c; if (!parse_case(caseid.substr(2), c)) return 2; hz::Ctx ctx; ctx.out = fopen("/dev/null", "w"); long before = 0; (void)before;
-    auto plain = al::assemble(text(c.it), c.combo); size_t L = plain.bytes.size(); int chunk = L < 8 ? 8 : 16, start = chunk - 1;
+    auto plain = al::assemble(text(c.it), c.combo); size_t L = plain.bytes.size(); if (L < 2) { printf("OK (nothing to pad)\n"); return 0; } int chunk = L < 8 ? 8 : L < 16 ? 16 : 32; int left = 1 + (int)((hz::fnv(caseid) >> 11) % (L - 1)); int start = chunk - left;
     std::vector<uint8_t> buf(128, 0xcc); assemblyline_t a = asm_create_instance(buf.data(), 128); al::apply_opts(a, combo_opts(c.combo)); asm_set_chunk_size(a, chunk); asm_set_offset(a, start); int rc = asm_assemble_str(a, text(c.it).c_str()); int off = asm_get_offset(a); asm_destroy_instance(a);
     size_t p = (size_t)off >= (size_t)start + L ? (size_t)off - L : (size_t)start; size_t q = start; bool padok = rc == 0; while (padok && q < p) { x86::Insn n = x86::decode(buf.data() + q, p - q); if (!n.ok || !n.isnop) { padok = false; break; } q += n.len; }
     bool ok = padok && (size_t)off - p == L && !memcmp(buf.data() + p, plain.bytes.data(), L);
